@@ -77,11 +77,41 @@ class FakeDevice:
         self.opened = 0
 
 
+def full_ir_set(remote_id, on_off_type, main, swing):
+    """an IR set in which every key of the universe carries the same code text"""
+    mp, mc = main or ["P", "C"]
+    sp, sc = swing or ["P", "C"]
+    waves = []
+    bodies = []
+    for mode in ("aa", "ad", "aw"):
+        bodies.append(mode)
+        for f in range(4):
+            bodies.append("%s_f%d" % (mode, f))
+            bodies.append("%s_f%d_d1" % (mode, f))
+    for mode in ("ar", "ah"):
+        for t in range(10, 36):
+            bodies.append("%s%d" % (mode, t))
+            for f in range(4):
+                bodies.append("%s%d_f%d" % (mode, t, f))
+                bodies.append("%s%d_f%d_d1" % (mode, t, f))
+    for b in bodies:
+        waves.append({"Key": b, "Para": mp, "HexCode": mc})
+        if on_off_type:
+            waves.append({"Key": "on_" + b, "Para": mp, "HexCode": mc})
+    waves.append({"Key": "off", "Para": mp, "HexCode": mc})
+    waves.append({"Key": "FUN_d0", "Para": sp, "HexCode": sc})
+    waves.append({"Key": "FUN_d1", "Para": sp, "HexCode": sc})
+    return {"IRSetID": remote_id, "OnOffType": 1 if on_off_type else 0, "IRWaveList": waves}
+
+
 def build_remote(rspec):
     """remote for control_breeze_device replays: a real SwitcherBreezeRemote built from an IR set"""
     from aioswitcher.api.remotes import SwitcherBreezeRemote
 
-    return SwitcherBreezeRemote(rspec["ir_set"])
+    if "ir_set" in rspec:
+        return SwitcherBreezeRemote(rspec["ir_set"])
+    rid = "ELEC7022" if rspec.get("separated") else "DUMMY001"
+    return SwitcherBreezeRemote(full_ir_set(rid, rspec.get("on_off_type", 0), rspec.get("main"), rspec.get("swing")))
 
 
 def run_api_op(spec):
@@ -1122,4 +1152,59 @@ def o_c07(spec, obs):
         for k, v in e.items():
             if g.get(k) != v:
                 return True, "delivery %d: field %s = %r, expected %r (order or content)" % (i, k, g.get(k), v)
+    return False, "ok"
+
+
+# ------------------------------------------------------------------------------- C16
+@oracle("C16")
+def o_c16(spec, obs):
+    """concrete oracle: frames decoded against the reference layout, merged values recomputed from the scripted state reply"""
+    case = spec.get("case", {})
+    given = case.get("given", [1, 1, 1, 1, 1])
+    sep, upd, fault = bool(case.get("separated")), bool(case.get("update")), case.get("fault")
+    frames = [bytes.fromhex(f) for f in obs["frames"]]
+    args = [denorm(a) for a in spec["args"]]
+    state, mode, target, fan, swing, _u = args
+    s, m_, t, f, w = given
+    actionable = bool(s or m_ or t or f or (w and not sep))
+    swing_cmd = bool(sep and w and not upd)
+    raised = obs.get("exception")
+    if fault == "login":
+        return (raised != "RuntimeError" or len(frames) != 1), "empty login reply: %r, %d frames" % (raised, len(frames))
+    if not actionable and not swing_cmd:
+        return (raised != "RuntimeError" or len(frames) != 1), "nothing actionable: %r, %d frames" % (raised, len(frames))
+    if fault and obs.get("successful") is True:
+        replies = [bytes.fromhex(r) for r in spec["replies"]]
+        used = replies[:len(frames)]
+        if any(len(r) == 0 for r in used):
+            return True, "an empty reply was reported as success"
+    if fault:
+        return False, "fault handled"
+    if raised:
+        return True, "control raised %s: %s" % (raised, obs.get("msg"))
+    st = bytes.fromhex(spec["replies"][1]) if actionable else bytes(100)
+    r = SR.decode(O, st, "thermostat")
+    want = {
+        "state": (1 if state.name == "ON" else 0) if s else (0 if r["state"] == 0 else 1),
+        "mode": {"AUTO": 1, "DRY": 2, "FAN": 3, "COOL": 4, "HEAT": 5}[mode.name] if m_ else r["mode"],
+        "target": target if t else r["target"],
+        "fan": {"AUTO": 0, "LOW": 1, "MEDIUM": 2, "HIGH": 3}[fan.name] if f else r["fan"],
+        "swing": 0 if sep else ((1 if swing.name == "ON" else 0) if w else (0 if r["swing"] == 0 else 1)),
+    }
+    exp_frames = 1 + (2 if actionable else 0) + (1 if swing_cmd else 0)
+    if len(frames) != exp_frames:
+        return True, "%d frames written, expected %d" % (len(frames), exp_frames)
+    if actionable and upd:
+        cmd = frames[2]
+        a = dict(session=bytes.fromhex(spec["replies"][0])[8:12], ts=int.from_bytes(cmd[24:28], "little"), dev_id=bytes.fromhex(spec["dev_id"]),
+                 key=bytes.fromhex(spec["key"]), state=want["state"], mode=want["mode"], target=want["target"], fan=want["fan"], swing=want["swing"])
+        exp = SO.expected_frame(O, "breeze_update", "breeze_update", a)
+        if cmd != exp:
+            return True, "status frame %s differs from the merged values %r" % (cmd[79:90].hex(), want)
+    if actionable and not upd:
+        # the real remote used in the replay carries the same text under every key: check the envelope of the IR frame
+        cmd = frames[2]
+        text = cmd[87:-4]
+        if cmd[79:81] != b"\\x37\\x01" or int.from_bytes(cmd[81:83], "little") != 4 + len(text) or cmd[83:87] != bytes(4):
+            return True, "IR frame payload header %s does not describe a %d byte text" % (cmd[79:87].hex(), len(text))
     return False, "ok"
